@@ -5,6 +5,24 @@ from vlib.e2 import run_family_check
 PROP = "C11"
 
 
+def accepts_job(cfg):
+    """elaborates one Connect/simultaneous design of the C13 harness; reports whether the library rejects it"""
+    import warnings
+    from amaranth.hdl import Fragment
+    from checks.c13 import ConnH
+    h = ConnH(**cfg)
+    top, _, _, _, ctx = h._construct()
+    try:
+        with warnings.catch_warnings():
+            warnings.simplefilter("ignore")
+            Fragment.get(top, None)
+        return {"cfg": cfg, "rejected": None}
+    except Exception as e:
+        return {"cfg": cfg, "rejected": f"{type(e).__name__}: {str(e).strip()[:100]}"}
+    finally:
+        ctx.__exit__(None, None, None)
+
+
 def run(rep, tier):
     rep.rule = ("every design of all core families plus the deliberately ill-formed family 'bad' (recursion of length 1-3, priority "
                 "cycles of length 1-3 from add_conflict/schedule_before on transactions and methods, single_caller from two "
@@ -18,5 +36,31 @@ def run(rep, tier):
         ["bad", "ctrl", "xmod_l", "flat", "flat3_s", "chain", "rel2", "rel3", "rel4", "nest", "val", "prov", "provrel", "fwd"]
     FAMS_Q.setdefault("fwd", ("fwd", {}))
     run_family_check(rep, "C11", [FAMS_Q[n] for n in fams], simulate=False, props=["C11"])
+    # designs built around Connect / simultaneous() (not expressible in the DSL): chains of Connects whose stages share a
+    # *nonexclusive* method are free of every defect the statement lists and must elaborate
+    from vlib.runner import run_jobs
+    jobs = []
+    for n in (1, 2, 3):
+        for zmask in range(1, 1 << (n + 1)):
+            jobs.append(("checks.c11", "accepts_job", {"cfg": {"kind": "chain", "n": n, "zmask": zmask, "znx": True}}))
+    for nw, nr in ((1, 1), (2, 1), (1, 2), (2, 2)):
+        for extra in range(1 << (nw + nr)):
+            jobs.append(("checks.c11", "accepts_job", {"cfg": {"kind": "connect", "nw": nw, "nr": nr, "extra": extra, "rev": True}}))
+    for r in run_jobs(jobs):
+        if r.get("error") and "cfg" not in r:
+            rep.errors.append(r["error"])
+            continue
+        rep.bump("designs")
+        rep.bump("simultaneity_designs")
+        rep.states += 1
+        rep.transitions += 1
+        rep.evaluations += 1
+        if r["rejected"]:
+            rep.bump("designs_rejected")
+            rep.violation(where="ConnH", cfg=r["cfg"], clause="elaboration.verdict: library rejects (" + r["rejected"] +
+                          ") a design with none of the listed defects", path=None,
+                          replay={"kind": "e1", "module": "checks.c13", "cls": "ConnH", "cfg": r["cfg"], "path": []})
+        else:
+            rep.bump("designs_accepted")
     rep.nontrivial = rep.counters.get("designs_rejected", 0)
     return {"designs": 1000, "designs_accepted": 500, "designs_rejected": 500}
